@@ -974,11 +974,11 @@ class Cache:
         :raises Timeout: if database timeout occurs
 
         """
-        now = time.time()
         db_key, raw = self._disk.put(key)
-        expire_time = None if expire is None else now + expire
 
         with self._transact(retry) as (sql, _):
+            now = time.time()
+            expire_time = None if expire is None else now + expire
             rows = sql(
                 'SELECT rowid, expire_time FROM Cache'
                 ' WHERE key = ? AND raw = ?',
@@ -1022,13 +1022,13 @@ class Cache:
         :raises Timeout: if database timeout occurs
 
         """
-        now = time.time()
         db_key, raw = self._disk.put(key)
-        expire_time = None if expire is None else now + expire
         size, mode, filename, db_value = self._disk.store(value, read, key=key)
-        columns = (expire_time, tag, size, mode, filename, db_value)
 
         with self._transact(retry, filename) as (sql, cleanup):
+            now = time.time()
+            expire_time = None if expire is None else now + expire
+            columns = (expire_time, tag, size, mode, filename, db_value)
             rows = sql(
                 'SELECT rowid, filename, expire_time FROM Cache'
                 ' WHERE key = ? AND raw = ?',
@@ -1076,7 +1076,6 @@ class Cache:
         :raises Timeout: if database timeout occurs
 
         """
-        now = time.time()
         db_key, raw = self._disk.put(key)
         select = (
             'SELECT rowid, expire_time, filename, value FROM Cache'
@@ -1084,6 +1083,7 @@ class Cache:
         )
 
         with self._transact(retry) as (sql, cleanup):
+            now = time.time()
             rows = sql(select, (db_key, raw)).fetchall()
 
             if not rows:
